@@ -14,7 +14,8 @@
 //   O <sizeof lane> <off dq_state> <off dq_items_tail> <off dq_items_head> <off do_next> <off do_ref_cnt> <off dq_atomic_flags>
 //     <sizeof root queue> <nroots> <root array address> <ENQUEUED> <DIRTY> <ROLE_BASE_ANON> <off do_targetq>
 //   R <round> <lane address> <kind> <nthreads> <nitems> <wakeup qos> <dq_priority> <initial dq_state> <final dq_state>
-//     <seq at begin> <seq at end> <ran> <max concurrently running> <order errors> <idle ok> <target root index>
+//     <seq at begin> <seq at end> <ran> <max concurrently running> <order errors> <idle ok> <target root index> <nested>
+//   X <rounds printed> <events dumped>     last line: the dump is complete
 //   E ... (dv_record.h format; obj = round for the lane, 900 for the root-queue array, -1 untracked)
 // harness-level events (dv_user): DVU_CALL a=wakeup qos + 256 * push qos, b=ticket / DVU_RET b=ticket around each dispatch_async_f,
 //   DVU_CALLOUT_BEGIN / DVU_CALLOUT_END a=ticket inside each work item.
@@ -25,10 +26,11 @@
 #define MAXT 8
 #define MAXITEMS 4096
 
-typedef struct { int round; int ticket; int thr; int idx; } item_t;
+typedef struct { int round; int ticket; int thr; int idx; int depth; } item_t;
 static item_t items[MAXITEMS];
 static _Atomic int next_ticket, ran, inflight, maxinflight, order_err;
-static _Atomic int last_idx[MAXT];
+static _Atomic int last_idx[MAXT + 1];
+static _Atomic int nested_idx; static int cur_nested;   // nested round: some items submit to their own queue from the callout
 static int cur_round;
 static uint64_t round_rng;
 static dispatch_queue_t cur_q;
@@ -74,6 +76,20 @@ static void work(void *ctx) {
 	uint64_t x = ((uint64_t)it->ticket + 1) * 0x9E3779B97F4A7C15ull ^ round_rng;
 	x ^= x >> 29;
 	if (x % 11 == 0) usleep((useconds_t)(x % 90)); else if (x % 5 == 0) sched_yield();
+	if (cur_nested && it->depth < 2 && (x >> 7) % 3 == 0) {
+		// the work item submits to its own serial queue (drainer = pusher): one pseudo-submitter MAXT, whose submissions are
+		// totally ordered because callouts of a serial queue are; outside the flat client of Model/SLane.v
+		int k = atomic_fetch_add(&next_ticket, 1);
+		if (k < MAXITEMS) {
+			item_t *ch = &items[k]; ch->round = cur_round; ch->ticket = k; ch->thr = MAXT; ch->idx = atomic_fetch_add(&nested_idx, 1);
+			ch->depth = it->depth + 1;
+			dv_user(DVU_CALL, cur_round, (unsigned long long)cur_wq | ((unsigned long long)cur_pq << 8), (unsigned long long)k);
+			in_call = 1;
+			dispatch_async_f(cur_q, ch, work);
+			in_call = 0;
+			dv_user(DVU_RET, cur_round, 0, (unsigned long long)k);
+		} else atomic_fetch_sub(&next_ticket, 1);
+	}
 	atomic_fetch_sub(&inflight, 1);
 	atomic_fetch_add(&ran, 1);
 	dv_user(DVU_CALLOUT_END, it->round, (unsigned long long)it->ticket, 0);
@@ -91,7 +107,7 @@ static void *submitter(void *a) {
 			if (mode == 0) usleep((useconds_t)((r >> 40) % 40));
 		} else if (mode < 5) usleep((useconds_t)((r >> 40) % 30));
 		int k = atomic_fetch_add(&next_ticket, 1);
-		item_t *it = &items[k]; it->round = cur_round; it->ticket = k; it->thr = t->thr; it->idx = i;
+		item_t *it = &items[k]; it->round = cur_round; it->ticket = k; it->thr = t->thr; it->idx = i; it->depth = 0;
 		dv_user(DVU_CALL, cur_round, (unsigned long long)cur_wq | ((unsigned long long)cur_pq << 8), (unsigned long long)k);
 		in_call = 1;
 		dispatch_async_f(cur_q, it, work);
@@ -126,11 +142,12 @@ int main(int argc, char **argv) {
 	dv_install(seed, permille);
 	_dispatch_verif_cb = sl_cb;
 	uint64_t r = seed * 6364136223846793005ull + 1442695040888963407ull;
-	dispatch_queue_t keep[64]; int nkeep = 0;
+	dispatch_queue_t keep[64]; int nkeep = 0, rounds_done = 0;
 	dv_track(&_dispatch_root_queues[0], sizeof(struct dispatch_queue_global_s) * _DISPATCH_ROOT_QUEUE_IDX_COUNT, 900);
 	for (int i = 0; i < rounds; i++) {
 		r = r * 6364136223846793005ull + 1442695040888963407ull;
 		int n = 1 + (int)((r >> 33) % MAXT); int kind = (int)((r >> 40) % 12);
+		cur_nested = (int)((r >> 50) % 5 == 0);
 		char lbl[32]; snprintf(lbl, sizeof lbl, "sl%d", i);
 		dispatch_queue_t q;
 		if (kind == 0) q = dispatch_queue_create(lbl, NULL);
@@ -145,7 +162,8 @@ int main(int argc, char **argv) {
 		cur_wq = (int)_dispatch_queue_wakeup_qos(dl, (dispatch_qos_t)cur_pq);
 		atomic_store(&next_ticket, 0); atomic_store(&ran, 0); atomic_store(&inflight, 0); atomic_store(&maxinflight, 0);
 		atomic_store(&order_err, 0);
-		for (int k = 0; k < MAXT; k++) atomic_store(&last_idx[k], -1);
+		for (int k = 0; k <= MAXT; k++) atomic_store(&last_idx[k], -1);
+		atomic_store(&nested_idx, 0);
 		uint64_t st0 = *(volatile uint64_t *)&dl->dq_state;
 		dv_track(dl, sizeof(struct dispatch_lane_s), i);
 		unsigned long long seq0 = atomic_load(&dv_seq);
@@ -160,21 +178,24 @@ int main(int argc, char **argv) {
 		for (int k = 0; k < n; k++) pthread_join(th[k], NULL);
 		pthread_barrier_destroy(&bar);
 		// wait until every item ran and the lane is idle: unlocked, not enqueued, empty (plain reads: not recorded)
+		// progress-based watchdog: give up only when nothing has run for 10 s (never on elapsed time alone)
 		int idle = 0, last_ran = -1, still = 0;
-		for (int w = 0; w < 200000; w++) {
+		for (;;) {
 			uint64_t st = *(volatile uint64_t *)&dl->dq_state;
-			if (atomic_load(&ran) == total && !(st & DISPATCH_QUEUE_DRAIN_OWNER_MASK) && !(st & DISPATCH_QUEUE_ENQUEUED) &&
+			if (atomic_load(&ran) == atomic_load(&next_ticket) && !(st & DISPATCH_QUEUE_DRAIN_OWNER_MASK) && !(st & DISPATCH_QUEUE_ENQUEUED) &&
 					!_dq_state_is_in_barrier(st) && dl->dq_items_tail == NULL) { idle = 1; break; }
 			if (atomic_load(&ran) != last_ran) { last_ran = atomic_load(&ran); still = 0; }
-			else if (++still > 30000) break;   // nothing ran for 1.5 s: stranded; report and stop
+			else if (++still > 200000) break;   // nothing ran for >= 10 s: stranded; report and stop
 			usleep(50);
 		}
+		total = atomic_load(&next_ticket);
 		usleep(300);   // let the last drainer leave the object (reference counts, root-queue bookkeeping)
 		uint64_t st1 = *(volatile uint64_t *)&dl->dq_state;
 		unsigned long long seq1 = atomic_load(&dv_seq);
-		printf("R %d %" PRIuPTR " %d %d %d %d %u %" PRIu64 " %" PRIu64 " %llu %llu %d %d %d %d %d\n", i, (uintptr_t)dl, kind, n, total,
+		printf("R %d %" PRIuPTR " %d %d %d %d %u %" PRIu64 " %" PRIu64 " %llu %llu %d %d %d %d %d %d\n", i, (uintptr_t)dl, kind, n, total,
 				cur_wq, (unsigned)dl->dq_priority, st0, st1, seq0, seq1, atomic_load(&ran), atomic_load(&maxinflight),
-				atomic_load(&order_err), idle, root_index(q->do_targetq));
+				atomic_load(&order_err), idle, root_index(q->do_targetq), cur_nested);
+		rounds_done++;
 		if (!idle) break;    // the lane is stuck: later rounds would only wait; dump what was recorded
 		keep[nkeep++] = q;
 		if (nkeep == 48) {   // the recorder has 64 ranges: recycle them while nothing is in flight
@@ -186,5 +207,6 @@ int main(int argc, char **argv) {
 	}
 	atomic_store(&dv_enabled, 0);
 	dv_dump(stdout);
+	{ size_t nev = 0; for (dv_thr_t *t = dv_threads; t; t = t->next) nev += t->n; printf("X %d %zu\n", rounds_done, nev); }
 	return 0;
 }
